@@ -9,6 +9,7 @@ impl: loki.transformations.sanitise.associates - do_resolve_associates(start_dep
 Every program belongs to one population (syntactic class, see lib_fm_sanitise.AssocGen) and one option set;
 violation keys are  assoc:<option>:<population>:<failure signature>.
 """
+import os
 import time
 
 from .. import lib_fm as F
@@ -31,9 +32,14 @@ POPS = {
     'subdep':   dict(expr=False, subdep=True),                      # element selector whose subscript mentions an outer name
     'print':    dict(expr=False, print_names=True),                 # PRINT mentions associate names
     'nointr':   dict(expr=False, intrinsics=False),                 # like var, no intrinsic function references at all
+    'section':  dict(expr=False, sections='lb1'),                   # + rank-1 section selectors for which name(e) is base(e)
+    'secshift': dict(expr=False, sections='shift'),                 # + any rank-1 section selector (bounds / stride remapping)
+    'shadow':   dict(expr=False, shadow=True),                      # a nested block rebinds a name of an enclosing block
     'volatile': dict(expr=True, volatile=True, dependent=False),    # selectors mention entities the blocks define
 }
 FEATURES = ('assoc', 'twod', 'section', 'call', 'select', 'exitcycle')
+
+FRONTEND_RAISED = {}     # signature -> first source text
 
 
 def apply_opt(routine, opt):
@@ -58,7 +64,13 @@ def apply_opt(routine, opt):
 
 def transform(text, prog, workdir):
     from loki import Sourcefile
-    src = Sourcefile.from_source(text)
+    try:
+        src = Sourcefile.from_source(text)
+    except Exception as ex:  # pylint: disable=broad-except
+        # a frontend failure is not a statement about the transformation (C01/C02 territory): counted, not judged
+        sig = F.failure_signature('frontend-raised', f'{type(ex).__name__}: {ex}')
+        FRONTEND_RAISED.setdefault(sig, text)
+        raise F.NotApplicable(sig) from ex
     for r in src.all_subroutines:
         apply_opt(r, prog['opt'])
     return [('kmod.f90', src.to_fortran())]
@@ -67,6 +79,10 @@ def transform(text, prog, workdir):
 def gen_cases(ctx, n):
     cases = []
     cells = [(o, p) for o in OPTS for p in POPS]
+    if os.environ.get('VERIF_POPS'):      # development only: restrict the populations / options
+        cells = [c for c in cells if c[1] in os.environ['VERIF_POPS'].split(',')]
+    if os.environ.get('VERIF_OPTS'):
+        cells = [c for c in cells if c[0] in os.environ['VERIF_OPTS'].split(',')]
     ctx.rng.shuffle(cells)
     for i in range(n):
         opt, pop = cells[i % len(cells)]
@@ -81,7 +97,6 @@ def gen_cases(ctx, n):
 
 
 def run(ctx):
-    import os
     dev = int(os.environ.get('VERIF_CASES', '0') or 0)     # development only: fewer cases
     if ctx.replay:
         c = ctx.replay['case']
@@ -110,13 +125,15 @@ def run(ctx):
     ctx.cover['programs_per_option_and_population'] = per_cell
     ctx.cover['programs_whose_associate_count_changed'] = changed
     ctx.cover['options'] = OPT_DOC
+    ctx.cover['frontend_raised_not_judged'] = {k: v[:1500] for k, v in FRONTEND_RAISED.items()}
     if results:
         ctx.sample({'program': results[0]['text'], 'option': cases[0][0].get('opt'), 'inputs': cases[0][1][:1]})
     ctx.assumptions += [
         'MiniFortran subset (see C01); ASSOCIATE selectors: scalar variables, array elements, whole arrays, integer expressions; '
         'nesting up to 3; names of enclosing blocks used as selectors and inside subscripts',
-        'not generated: array-section selectors (bounds remapping is not in FMachine), derived-type components (no derived types in '
-        'FMachine) - max_parents therefore never filters anything; shadowing of an enclosing name by an inner associate name '
-        '(FMachine reports it as not modelled)',
+        'rank-1 array-section selectors (one range subscript; sections of sections) and inner names that shadow a name of an '
+        'enclosing block are generated in their own populations',
+        'not generated: rank-2 section selectors, derived-type components (no derived types in FMachine) - max_parents therefore '
+        'never filters anything; an associate name that shadows a variable of the routine (FMachine: not modelled)',
         'populations are syntactic classes of the generator, the verdict is always Run(original) = observed(transformed)',
     ]
